@@ -83,6 +83,12 @@ class C04(common.Spec):
                     kw['initdef'] = 'INIT'
             for st in d['all_states']:
                 kw['on_enter_' + st] = edzed.Event(dest, 'entered')
+            if d.get('exit_bad'):
+                # leaving these states fails (not fatally): their on_exit event goes to a block that
+                # does not know the event type
+                stranger = edzed.Input('stranger', initdef=0)
+                for st in d['exit_bad']:
+                    kw['on_exit_' + st] = edzed.Event(stranger, 'nosuch')
             fsm = cls('fsm', **kw)
             state['fsm'] = fsm
             orig_event = fsm.event
@@ -217,7 +223,8 @@ class C04(common.Spec):
         if 'init_error' in obs or 'harness_error' in obs:
             # start-up failed (e.g. no duration for the initial timed state): not a timer scenario
             return ('{| tc_def := {| t_fsm := {| fd_states := []; fd_events := []; fd_trans := []; '
-                    'fd_timed := [] |}; t_class_dur := []; t_inst_dur := []; t_cond := []; t_enter_goto := [] |}; '
+                    'fd_timed := [] |}; t_class_dur := []; t_inst_dur := []; t_cond := []; t_enter_goto := []; '
+                    't_exit_bad := [] |}; '
                     'tc_steps := []; tc_obs := {| to_entries := []; to_final_state := None; '
                     'to_expiry := None; to_pending := 0; to_failed := %s |} |}' %
                     cbool('harness_error' in obs))
@@ -229,7 +236,7 @@ class C04(common.Spec):
         cond = {'true': 'CTrue', 'false': 'CFalse'}
         tdef = ("{| t_fsm := match build {| rd_states := %s; rd_timed := %s; rd_events := %s |} with "
                 "Ok x => x | Err _ => {| fd_states := []; fd_events := []; fd_trans := []; fd_timed := [] |} end;\n"
-                "   t_class_dur := %s; t_inst_dur := %s; t_cond := %s; t_enter_goto := %s |}") % (
+                "   t_class_dur := %s; t_inst_dur := %s; t_cond := %s; t_enter_goto := %s; t_exit_bad := %s |}") % (
             clist(d['states'], cstr),
             clist(d['timed'], lambda x: cpair(cstr(x[0]), c_etype(x[2]))),
             clist(d['events'], raw_event),
@@ -237,7 +244,8 @@ class C04(common.Spec):
             clist(d['inst_dur'], lambda x: cpair(cstr(x[0]), c_dval(x[1]))),
             clist(d['cond'], lambda x: cpair(cstr(x[0]), cond[x[1]] if isinstance(x[1], str)
                                            else f"(CNotIn {cstr(x[1][1])})")),
-            clist(d.get('enter_goto', []), lambda x: cpair(cstr(x[0]), cstr(x[1]))))
+            clist(d.get('enter_goto', []), lambda x: cpair(cstr(x[0]), cstr(x[1]))),
+            clist(d.get('exit_bad', []), cstr))
         # the initialisation event is the first step: Goto(default) at time 0
         init = d['init']
         steps = [f"TExt 0%Z {c_etype(init[0])} {c_dval(init[1]) if init[1] else 'DNoneV'} (Ok true)"]
@@ -332,6 +340,8 @@ def generic_def(rng):
         enter_goto.append([st, rng.choice([x for x in states if x != st])])
     res = dict(states=states, all_states=states, events=events, timed=timed, inst_dur=inst, cond=cond,
                enter_goto=enter_goto, init=[['goto', states[0]], None])
+    if rng.random() < 0.2:
+        res['exit_bad'] = [st for st in states if rng.random() < 0.4]
     if timed and rng.random() < 0.35:
         tnames = [t[0] for t in timed]
         decl = [x for x in states if x not in tnames]
